@@ -1,6 +1,78 @@
-import DdsModel.Drv.Util
+import DdsModel.Drv.C09
+namespace Dds.Drv.C18
+open Dds.Drv.C09
+open Dds
+
+def parseDefect (s : String) : Option Defect :=
+  match splitColon s with
+  | ["A", a] => do some (.arraySize (← u32? a))
+  | ["M", m] => do some (.mipCount (← u32? m))
+  | ["DM"] => some .dropMipFlags
+  | ["H24"] => some .headerSize24
+  | ["PS", n] => do some (.pfSize (← u32? n))
+  | ["PF", f] => do some (.pfFlags (← u32? f))
+  | ["A2", v] => do some (.miscFlags2 (← u32? v))
+  | _ => none
+
+def fmtRes : Except HeaderErr (Header × List Nat) → String
+  | .ok (h, _) => fmtHeader h
+  | .error e => fmtErr e
+
+def three (ws : List Nat) (fl : Option Nat) : String :=
+  let s := Header.read pixelInfoOf ParseOptions.strict ws
+  let p := Header.read pixelInfoOf (ParseOptions.newPermissive none) ws
+  let f := Header.read pixelInfoOf (ParseOptions.newPermissive fl) ws
+  let bad := [s, p, f].any fun r => match r with | .ok (h, _) => layoutPanics h | .error _ => false
+  if bad then "panic" else
+  let lf := match f with | .ok (h, _) => dataLenOf h | .error _ => none
+  s!"s={fmtRes s} p={fmtRes p} f={fmtRes f} lf={fmtOptNat lf}"
+
+def u64? (s : String) : Option Nat := do
+  let n ← nat? s
+  if n < U64 then some n else none
+
+def runD (t : List String) : String :=
+  match t with
+  | hs :: flm :: dsS =>
+    match parseHeaderTok hs, dsS.mapM parseDefect with
+    | some h, some ds =>
+      let raw := Defect.applyAll ds (h.toRaw pixelInfoOf)
+      let ws := MAGIC_WORD :: raw.write
+      let l := dataLenOf h
+      let tl := match l with
+        | some l => if l + (4 + h.byteLen) < U64 then some (l + (4 + h.byteLen)) else none
+        | none => none
+      let fl? : Option (Option Nat) := match flm with
+        | "n" => some none
+        | "e" => some tl
+        | "+" => some (match tl with | some x => if x + 1 < U64 then some (x + 1) else none | none => none)
+        | "-" => some (match tl with | some x => if x ≥ 1 then some (x - 1) else none | none => none)
+        | x => (u64? x).map some
+      match fl? with
+      | none => "bad-case"
+      | some fl =>
+        if layoutPanics h then "panic" else
+        s!"{three ws fl} L={fmtOptNat l}"
+    | _, _ => "bad-case"
+  | _ => "bad-case"
+
+def runR (t : List String) : String :=
+  match t with
+  | fls :: wsS =>
+    let fl? : Option (Option Nat) := if fls == "n" then some none else (u64? fls).map some
+    match fl?, wsS.mapM u32? with
+    | some fl, some ws => three ws fl
+    | _, _ => "bad-case"
+  | _ => "bad-case"
+
+def runC18 (line : String) : String :=
+  match toks line with
+  | "D" :: t => runD t
+  | "R" :: t => runR t
+  | _ => "bad-case"
+
+end Dds.Drv.C18
+
 namespace Dds.Drv
-
-def runC18 (_line : String) : String := "not-modelled"
-
+def runC18 : String → String := C18.runC18
 end Dds.Drv
